@@ -46,6 +46,9 @@ type CtlListener struct {
 	unarmedEnters int
 	closedReturns int // Accept calls that returned the closed error
 	hookSetDeadline func()
+	// hookSetDeadlineBefore runs (once) inside the next SetDeadline call BEFORE the new deadline takes effect: whatever the
+	// hook makes happen lies between the accept loop's decision and the moment its deadline lands
+	hookSetDeadlineBefore func()
 	hookBeforeConn  func()
 }
 
@@ -71,6 +74,13 @@ func (l *CtlListener) Events() []lev {
 }
 
 func (l *CtlListener) SetDeadline(t time.Time) error {
+	l.mu.Lock()
+	hb := l.hookSetDeadlineBefore
+	l.hookSetDeadlineBefore = nil
+	l.mu.Unlock()
+	if hb != nil {
+		hb()
+	}
 	l.mu.Lock()
 	if t.IsZero() {
 		l.armed = false
